@@ -948,3 +948,345 @@ Proof.
   exists p. split; [exact Hin|]. split; [|exact X4].
   rewrite <- X3 by lia. now rewrite Eb, A2.
 Qed.
+
+(* ------------------------------------------------------------------ AbbreviationTable *)
+
+Lemma NoDup_snoc {A} (l : list A) (x : A) : NoDup l -> ~ In x l -> NoDup (l ++ [x]).
+Proof.
+  induction l as [|y r IH]; intros ND Hn; cbn [app]; [constructor; [intros []|constructor]|].
+  inversion ND; subst. constructor.
+  - rewrite in_app_iff. intros [H|[H|[]]]; [contradiction|]. subst. apply Hn. now left.
+  - apply IH; [assumption|]. intros H. apply Hn. now right.
+Qed.
+
+Lemma aspec_eqb_eq a b : aspec_eqb a b = true <-> a = b.
+Proof.
+  destruct a as [n1 f1 c1], b as [n2 f2 c2]. unfold aspec_eqb. cbn [as_name as_form as_ic].
+  rewrite !andb_true_iff, !N.eqb_eq, Z.eqb_eq. split; [intros [[-> ->] ->]; reflexivity|intros H; injection H; auto].
+Qed.
+
+Lemma aspecs_eqb_eq : forall a b, aspecs_eqb a b = true <-> a = b.
+Proof.
+  induction a as [|x r IH]; intros [|y s]; cbn [aspecs_eqb]; split; intros H; try reflexivity; try discriminate.
+  - apply andb_true_iff in H. destruct H as [H1 H2]. apply aspec_eqb_eq in H1. apply IH in H2. congruence.
+  - injection H as -> ->. apply andb_true_iff. split; [now apply aspec_eqb_eq|now apply IH].
+Qed.
+
+Lemma abbrev_eqb_eq a b : abbrev_eqb a b = true <-> a = b.
+Proof.
+  destruct a as [t1 c1 l1], b as [t2 c2 l2]. unfold abbrev_eqb. cbn [ab_tag ab_children ab_attrs].
+  rewrite !andb_true_iff, N.eqb_eq, eqb_true_iff, aspecs_eqb_eq.
+  split; [intros [[-> ->] ->]; reflexivity|intros H; injection H; auto].
+Qed.
+
+Lemma abbrev_find_some : forall tab a i,
+  abbrev_find tab a = Some i ->
+  nth_error tab i = Some a /\ (forall j, (j < i)%nat -> nth_error tab j <> Some a).
+Proof.
+  induction tab as [|x r IH]; intros a i H; cbn [abbrev_find] in H; [discriminate|].
+  destruct (abbrev_eqb x a) eqn:E.
+  - injection H as <-. apply abbrev_eqb_eq in E. subst. split; [reflexivity|]. intros j Hj. lia.
+  - destruct (abbrev_find r a) as [k|] eqn:F; [|discriminate]. injection H as <-.
+    destruct (IH _ _ F) as [A B]. split; [exact A|].
+    intros [|j] Hj; cbn [nth_error].
+    + intros Heq. injection Heq as ->. assert (abbrev_eqb a a = true) by now apply abbrev_eqb_eq. congruence.
+    + apply B. lia.
+Qed.
+
+Lemma abbrev_find_none : forall tab a, abbrev_find tab a = None -> ~ In a tab.
+Proof.
+  induction tab as [|x r IH]; intros a H; cbn [abbrev_find] in H; [intros []|].
+  destruct (abbrev_eqb x a) eqn:E; [discriminate|].
+  destruct (abbrev_find r a) eqn:F; [discriminate|].
+  intros [->|Hi]; [|eapply IH; eassumption].
+  assert (abbrev_eqb a a = true) by now apply abbrev_eqb_eq. congruence.
+Qed.
+
+Lemma abbrev_find_in : forall tab a, In a tab -> exists i, abbrev_find tab a = Some i.
+Proof.
+  intros tab a Hi. destruct (abbrev_find tab a) eqn:F; [eauto|]. apply abbrev_find_none in F. contradiction.
+Qed.
+
+(* AbbreviationTable::add: the returned code is the 1-based position of the first occurrence; the table
+   only grows at its end and never holds the same abbreviation twice *)
+Lemma abbrev_add_spec tab a code tab' :
+  abbrev_add tab a = (code, tab') ->
+  abbrev_lookup tab' code = Some a /\
+  1 <= code <= N.of_nat (length tab') /\
+  (forall c, c < code -> abbrev_lookup tab' c <> Some a) /\
+  (In a tab -> tab' = tab) /\ (~ In a tab -> tab' = tab ++ [a] /\ code = N.of_nat (length tab) + 1) /\
+  (NoDup tab -> NoDup tab').
+Proof.
+  unfold abbrev_add. destruct (abbrev_find tab a) as [i|] eqn:F; intros H; injection H as <- <-.
+  - destruct (abbrev_find_some _ _ _ F) as [A B].
+    assert (Li : (i < length tab)%nat) by (apply nth_error_Some; congruence).
+    unfold abbrev_lookup.
+    replace (N.of_nat i + 1 =? 0) with false by (symmetry; apply N.eqb_neq; lia).
+    replace (N.to_nat (N.of_nat i + 1 - 1)) with i by lia.
+    split; [exact A|]. split; [lia|]. split.
+    { intros c Hc. destruct (c =? 0) eqn:Z; [discriminate|]. apply N.eqb_neq in Z. apply B. lia. }
+    split; [reflexivity|]. split; [|auto].
+    intros Hn. exfalso. apply Hn. eapply nth_error_In; eassumption.
+  - assert (Hn := abbrev_find_none _ _ F).
+    unfold abbrev_lookup.
+    replace (N.of_nat (length tab) + 1 =? 0) with false by (symmetry; apply N.eqb_neq; lia).
+    replace (N.to_nat (N.of_nat (length tab) + 1 - 1)) with (length tab) by lia.
+    split; [rewrite nth_error_app2, Nat.sub_diag by lia; reflexivity|].
+    split; [rewrite app_length; cbn [length]; lia|]. split.
+    { intros c Hc. destruct (c =? 0) eqn:Z; [discriminate|]. apply N.eqb_neq in Z.
+      rewrite nth_error_app1 by lia. intros Hx. apply Hn. eapply nth_error_In; eassumption. }
+    split; [intros; contradiction|]. split; [auto|].
+    intros ND. now apply NoDup_snoc.
+Qed.
+
+(* equal (tag, children flag, attribute specifications) -> the same code, and the table is not touched:
+   in any later state of the table (which only grows and stays duplicate-free) *)
+Lemma abbrev_add_again tab a code tab' ext :
+  abbrev_add tab a = (code, tab') -> NoDup (tab' ++ ext) ->
+  abbrev_add (tab' ++ ext) a = (code, tab' ++ ext).
+Proof.
+  intros H ND. destruct (abbrev_add_spec _ _ _ _ H) as [A [B [C _]]].
+  unfold abbrev_lookup in A. destruct (code =? 0) eqn:Z; [discriminate|]. apply N.eqb_neq in Z.
+  assert (Hin : In a (tab' ++ ext)) by (apply in_or_app; left; eapply nth_error_In; eassumption).
+  destruct (abbrev_find_in _ _ Hin) as [i F]. unfold abbrev_add. rewrite F.
+  destruct (abbrev_find_some _ _ _ F) as [F1 F2].
+  assert (L : (N.to_nat (code - 1) < length tab')%nat) by (apply nth_error_Some; congruence).
+  assert (A' : nth_error (tab' ++ ext) (N.to_nat (code - 1)) = Some a) by (rewrite nth_error_app1; assumption).
+  (* two positions holding `a` in a duplicate-free list coincide *)
+  assert (i = N.to_nat (code - 1)).
+  { assert (Li : (i < length (tab' ++ ext))%nat) by (apply nth_error_Some; congruence).
+    rewrite NoDup_nth_error in ND. apply ND; [exact Li|congruence]. }
+  subst i. f_equal. lia.
+Qed.
+
+(* ------------------------------------------------------------------ StringTable / LineStringTable *)
+
+Definition strs_bytes (l : list (list byte)) : list byte := flat_map (fun s => s ++ [x00]) l.
+
+Lemma strs_bytes_app a b : strs_bytes (a ++ b) = strs_bytes a ++ strs_bytes b.
+Proof. unfold strs_bytes. apply flat_map_app. Qed.
+
+(* invariant: one offset per string, no duplicates, offset i = length of everything before string i,
+   len = total length *)
+Definition strtab_wf (t : strtab) : Prop :=
+  NoDup (st_strings t) /\
+  st_len t = UnitWr.blen (strs_bytes (st_strings t)) /\
+  length (st_offsets t) = length (st_strings t) /\
+  (forall i o, nth_error (st_offsets t) i = Some o ->
+               o = UnitWr.blen (strs_bytes (firstn i (st_strings t)))).
+
+Lemma strtab_empty_wf : strtab_wf strtab_empty.
+Proof.
+  unfold strtab_wf, strtab_empty. cbn. split; [constructor|]. split; [reflexivity|]. split; [reflexivity|].
+  intros [|i] o H; discriminate.
+Qed.
+
+Lemma bytes_eqb_eq a b : bytes_eqb a b = true <-> a = b.
+Proof. unfold bytes_eqb. destruct (list_eq_dec byte_eq_dec a b); split; intros; congruence. Qed.
+
+Lemma str_find_some : forall l s i, str_find l s = Some i ->
+  nth_error l i = Some s /\ (forall j, (j < i)%nat -> nth_error l j <> Some s).
+Proof.
+  induction l as [|x r IH]; intros s i H; cbn [str_find] in H; [discriminate|].
+  destruct (bytes_eqb x s) eqn:E.
+  - injection H as <-. apply bytes_eqb_eq in E. subst. split; [reflexivity|]. intros j Hj. lia.
+  - destruct (str_find r s) as [k|] eqn:F; [|discriminate]. injection H as <-.
+    destruct (IH _ _ F) as [A B]. split; [exact A|].
+    intros [|j] Hj; cbn [nth_error].
+    + intros Heq. injection Heq as ->. assert (bytes_eqb s s = true) by now apply bytes_eqb_eq. congruence.
+    + apply B. lia.
+Qed.
+
+Lemma str_find_none : forall l s, str_find l s = None -> ~ In s l.
+Proof.
+  induction l as [|x r IH]; intros s H; cbn [str_find] in H; [intros []|].
+  destruct (bytes_eqb x s) eqn:E; [discriminate|].
+  destruct (str_find r s) eqn:F; [discriminate|].
+  intros [->|Hi]; [|eapply IH; eassumption].
+  assert (bytes_eqb s s = true) by now apply bytes_eqb_eq. congruence.
+Qed.
+
+(* add: the id names a copy of the string; an existing copy is reused (table unchanged), a new string is
+   appended at offset = old total length *)
+Lemma strtab_add_spec dbg t s i t' :
+  strtab_wf t -> strtab_add dbg t s = Ok (i, t') ->
+  UnitWr.blen (strs_bytes (st_strings t')) < 2 ^ 64 ->
+  strtab_wf t' /\ nth_error (st_strings t') i = Some s /\
+  (In s (st_strings t) -> t' = t) /\
+  (~ In s (st_strings t) -> st_strings t' = st_strings t ++ [s] /\ i = length (st_strings t)) /\
+  (forall j x, nth_error (st_strings t) j = Some x -> nth_error (st_strings t') j = Some x) /\
+  (forall j o, nth_error (st_offsets t) j = Some o -> nth_error (st_offsets t') j = Some o).
+Proof.
+  intros [W1 [W2 [W3 W4]]] H B. unfold strtab_add in H.
+  destruct (has_nul s); [discriminate|].
+  destruct (str_find (st_strings t) s) as [k|] eqn:F.
+  - injection H as <- <-. destruct (str_find_some _ _ _ F) as [A _].
+    split; [repeat split; assumption|]. split; [exact A|]. split; [reflexivity|].
+    split; [intros Hn; exfalso; apply Hn; eapply nth_error_In; eassumption|]. split; auto.
+  - assert (Hn := str_find_none _ _ F).
+    apply bind_ok_inv in H. destruct H as [l1 [E1 H]]. apply bind_ok_inv in H. destruct H as [len' [E2 H]].
+    injection H as <- <-. cbn [st_strings st_offsets st_len] in *.
+    rewrite strs_bytes_app, blen_app in B. unfold strs_bytes at 2 in B. cbn [flat_map] in B.
+    rewrite app_nil_r, blen_app in B. change (UnitWr.blen [x00]) with 1 in B.
+    rewrite chk_add_ok in E1 by lia. injection E1 as <-.
+    rewrite chk_add_ok in E2 by lia. injection E2 as <-.
+    unfold strtab_wf. cbn [st_strings st_offsets st_len].
+    split.
+    { split; [now apply NoDup_snoc|]. split.
+      - rewrite strs_bytes_app, blen_app. unfold strs_bytes at 2. cbn [flat_map].
+        rewrite app_nil_r, blen_app. change (UnitWr.blen [x00]) with 1. lia.
+      - split; [rewrite !app_length; cbn [length]; lia|].
+        intros j o Hj. destruct (Nat.lt_ge_cases j (length (st_offsets t))) as [Lj|Lj].
+        + rewrite nth_error_app1 in Hj by assumption. rewrite firstn_app.
+          replace (j - length (st_strings t))%nat with 0%nat by lia. cbn [firstn]. rewrite app_nil_r. now apply W4.
+        + rewrite nth_error_app2 in Hj by assumption.
+          destruct (j - length (st_offsets t))%nat as [|m] eqn:Em; [|destruct m; discriminate].
+          injection Hj as <-. assert (j = length (st_strings t)) by lia. subst j.
+          rewrite firstn_app, Nat.sub_diag, firstn_all. cbn [firstn]. now rewrite app_nil_r. }
+    split; [rewrite nth_error_app2, Nat.sub_diag by lia; reflexivity|].
+    split; [intros; contradiction|]. split; [auto|]. split.
+    + intros j x Hj. rewrite nth_error_app1; [exact Hj|]. apply nth_error_Some. congruence.
+    + intros j o Hj. rewrite nth_error_app1; [exact Hj|]. apply nth_error_Some. congruence.
+Qed.
+
+(* the offset recorded for id i is the position of a copy of string i in the written section *)
+Lemma strtab_offset_points t i s o :
+  strtab_wf t -> nth_error (st_strings t) i = Some s -> nth_error (st_offsets t) i = Some o ->
+  exists pre post, strtab_write t = pre ++ (s ++ [x00]) ++ post /\ UnitWr.blen pre = o.
+Proof.
+  intros [_ [_ [_ W4]]] Hs Ho. apply W4 in Ho. subst o.
+  exists (strs_bytes (firstn i (st_strings t))), (strs_bytes (skipn (S i) (st_strings t))).
+  split; [|reflexivity]. unfold strtab_write. fold (strs_bytes (st_strings t)).
+  rewrite <- (firstn_skipn i (st_strings t)) at 1. rewrite strs_bytes_app. f_equal.
+  assert (E : skipn i (st_strings t) = s :: skipn (S i) (st_strings t)).
+  { clear W4. revert i Hs. induction (st_strings t) as [|x r IH]; intros [|i] Hs; cbn in *; try discriminate.
+    - now injection Hs as ->.
+    - now apply IH. }
+  rewrite E. unfold strs_bytes. cbn [flat_map]. reflexivity.
+Qed.
+
+(* equal strings -> equal ids -> one copy *)
+Lemma strtab_add_again dbg t s i t' :
+  strtab_add dbg t s = Ok (i, t') -> strtab_wf t ->
+  UnitWr.blen (strs_bytes (st_strings t')) < 2 ^ 64 ->
+  strtab_add dbg t' s = Ok (i, t').
+Proof.
+  intros H W B. destruct (strtab_add_spec _ _ _ _ _ W H B) as [[ND _] [A _]].
+  unfold strtab_add in *. destruct (has_nul s); [discriminate|].
+  destruct (str_find (st_strings t') s) as [k|] eqn:F.
+  - destruct (str_find_some _ _ _ F) as [F1 _]. f_equal. f_equal.
+    rewrite NoDup_nth_error in ND. apply ND; [apply nth_error_Some; congruence|congruence].
+  - exfalso. apply (str_find_none _ _ F). eapply nth_error_In; eassumption.
+Qed.
+
+(* ------------------------------------------------------------------ reorder_base_types *)
+
+Definition tag_is_base (ents : list entry) (c : nat) : bool :=
+  match nth_error ents c with Some x => en_tag x =? DW_TAG_base_type | None => false end.
+
+Lemma select_tags_spec ents want : forall l r,
+  select_tags ents want l = Ok r -> r = filter (fun c => Bool.eqb (tag_is_base ents c) want) l.
+Proof.
+  induction l as [|c l IH]; intros r H; cbn [select_tags] in H.
+  - now injection H as <-.
+  - apply bind_ok_inv in H. destruct H as [t [Et H]]. apply bind_ok_inv in H. destruct H as [rest [Er H]].
+    injection H as <-. cbn [filter]. rewrite <- (IH _ Er).
+    unfold entry_tag_at, unwrap in Et. unfold tag_is_base.
+    destruct (nth_error ents c) as [x|]; [|discriminate]. cbn [bind] in Et. injection Et as <-. reflexivity.
+Qed.
+
+Lemma filter_partition_perm {A} (p : A -> bool) : forall l,
+  Permutation (filter p l ++ filter (fun x => negb (p x)) l) l.
+Proof.
+  induction l as [|x r IH]; cbn [filter]; [constructor|].
+  destruct (p x); cbn [negb app].
+  - now constructor.
+  - eapply Permutation_trans; [apply Permutation_sym, Permutation_middle|]. now constructor.
+Qed.
+
+Lemma reorder_base_types_spec ents ents' :
+  reorder_base_types ents = Ok ents' ->
+  exists root,
+    nth_error ents 0 = Some root /\
+    nth_error ents' 0 =
+      Some (mkEntry (en_parent root) (en_tag root) (en_sibling root) (en_attrs root)
+                    (filter (tag_is_base ents) (en_children root) ++
+                     filter (fun c => negb (tag_is_base ents c)) (en_children root))) /\
+    (forall j, j <> 0%nat -> nth_error ents' j = nth_error ents j) /\
+    length ents' = length ents.
+Proof.
+  unfold reorder_base_types, unwrap. intros H.
+  destruct (nth_error ents 0) as [root|] eqn:E0; [|discriminate]. cbn [bind] in H.
+  apply bind_ok_inv in H. destruct H as [a [Ea H]]. apply bind_ok_inv in H. destruct H as [b [Eb H]].
+  apply select_tags_spec in Ea. apply select_tags_spec in Eb.
+  destruct (set_nth_spec _ _ _ _ H) as [S1 [S2 S3]].
+  exists root. split; [reflexivity|]. split; [|split; assumption].
+  rewrite S1. rewrite Ea, Eb. do 3 f_equal.
+  all: apply filter_ext; intros c; now destruct (tag_is_base ents c).
+Qed.
+
+(* ------------------------------------------------------------------ requests that cannot be encoded *)
+
+(* Some e: AttributeValue::write refuses the value with e. The conditions are those of the code: symbolic
+   addresses and references (no relocation support in the plain writer), values that do not fit the field,
+   a field width that is not 1/2/4/8, a line program reference in a unit without line program. *)
+Definition fits (v size : N) : option error :=
+  if size =? 1 then (if v <? 256 then None else Some WValueTooLarge)
+  else if size =? 2 then (if v <? two16 then None else Some WValueTooLarge)
+  else if size =? 4 then (if v <? two32 then None else Some WValueTooLarge)
+  else if size =? 8 then None
+  else Some WUnsupportedWordSize.
+
+Lemma write_udata_fits be v size :
+  match fits v size with
+  | Some e => write_udata be v size = Err e
+  | None => exists b, write_udata be v size = Ok b
+  end.
+Proof.
+  unfold fits, write_udata.
+  destruct (size =? 1); [destruct (v <? 256); eauto|].
+  destruct (size =? 2); [destruct (v <? two16); eauto|].
+  destruct (size =? 4); [destruct (v <? two32); eauto|].
+  destruct (size =? 8); eauto.
+Qed.
+
+Definition av_unencodable (cx : wcx) (v : aval) : option error :=
+  let e := wc_enc cx in
+  match v with
+  | AvAddress (ASym _ _) => Some WInvalidAddress
+  | AvAddress (AConst x) => fits x (e_asz e)
+  | AvDebugInfoRef (DSym _) => Some WInvalidReference
+  | AvDebugInfoRef (DEntry _ _) =>
+      if valid_size (if e_ver e =? 2 then e_asz e else wsz e) then None else Some WUnsupportedWordSize
+  | AvDebugInfoRefSup x | AvDebugMacinfoRef x | AvDebugMacroRef x | AvDebugStrRefSup x => fits x (wsz e)
+  | AvLineProgramRef => match wc_line cx with None => Some WInvalidAttributeValue | Some o => fits o (wsz e) end
+  | _ => None
+  end.
+
+Lemma wsz_fits_shape e x : fits x (wsz e) = if e_fmt64 e then None else (if x <? two32 then None else Some WValueTooLarge).
+Proof. unfold fits, wsz. destruct (e_fmt64 e); reflexivity. Qed.
+
+Theorem unencodable_is_error_lemma dbg cx v er :
+  av_unencodable cx v = Some er -> av_write dbg cx v = Err er.
+Proof.
+  destruct cx as [e be u uoff ents codes line lstr str rng loc].
+  destruct e as [ver fmt asz].
+  unfold av_unencodable. cbn [wc_enc wc_line].
+  destruct v; try discriminate; intros H; unfold av_write;
+    cbn [wc_enc wc_be wc_line wc_loc wc_rng wc_str wc_lstr]; unfold_asserts; case_ver ver; destruct fmt; asserts.
+  all: try (exfalso; lia).
+  all: try match goal with a : address |- _ => destruct a end.
+  all: try match goal with r : dref |- _ => destruct r end.
+  all: try match goal with l : option N |- _ => destruct l end.
+  all: unfold wsz in H; cbn [e_ver e_fmt64 e_asz] in H.
+  all: try (injection H as <-; reflexivity).
+  all: try match goal with
+       | H : fits ?x ?s = Some _ |- _ =>
+           let W := fresh in assert (W := write_udata_fits be x s); rewrite H in W;
+           rewrite W; reflexivity
+       end.
+  all: try match goal with
+       | H : (if valid_size ?s then _ else _) = Some _ |- _ =>
+           destruct (valid_size s); [discriminate|injection H as <-; reflexivity]
+       end.
+Qed.
